@@ -1354,7 +1354,9 @@ class Interp:
                 key = k2
         places = [self.place(x, env, fr) if isinstance(x, dict) else None for x in arg_exprs]
         self.cur_env = env
-        ctx = CallCtx(self, c, key, args, arg_exprs, places, e, env, fr, site)
+        # a summary sees the VALUE behind a reference into a buffer (an item of iter_mut(), a reborrow of one); where it writes is in `places`
+        sargs = [self.read_place((a_.args[0], list(a_.args[1])), env) if isinstance(a_, T) and a_.op == "placeref" else a_ for a_ in args]
+        ctx = CallCtx(self, c, key, sargs, arg_exprs, places, e, env, fr, site)
         r = self.S.summarize(ctx)
         if r is not NotImplemented:
             if r is None:
